@@ -60,16 +60,23 @@ func VerifDecodeClient(limit int, b []byte) VerifCDecode {
 	case m == nil:
 		out.Outcome = "nil"
 	default:
+		out = VerifDescribeMsg(m)
 		out.Outcome = "ok"
 		out.Consumed = c.discarded
-		out.Type = m.Type
-		out.Keys = append([]string(nil), m.Keys...)
-		for slot, f := range m.Body {
-			out.Slots = append(out.Slots, slot)
-			out.FragKeys = append(out.FragKeys, f.Key)
-			out.FragReqs = append(out.FragReqs, append([]byte(nil), f.Req...))
-		}
 		MsgPool.Put(m)
+	}
+	return out
+}
+
+// VerifDescribeMsg copies the observable fields of a decoded request.
+func VerifDescribeMsg(m *Msg) VerifCDecode {
+	var out VerifCDecode
+	out.Type = m.Type
+	out.Keys = append([]string(nil), m.Keys...)
+	for slot, f := range m.Body {
+		out.Slots = append(out.Slots, slot)
+		out.FragKeys = append(out.FragKeys, f.Key)
+		out.FragReqs = append(out.FragReqs, append([]byte(nil), f.Req...))
 	}
 	return out
 }
